@@ -33,7 +33,7 @@ fn plan(tier: Tier) -> Plan {
             exhaustive: false,
         },
         Tier::Thorough => Plan {
-            cases: 600_000,
+            cases: 5_000_000,
             time_cap_s: 420,
             case_timeout_s: 20,
             exhaustive: false,
